@@ -61,6 +61,32 @@ Theorem C18_text_fallback_kinds_partial :
     c = CUse \/ (fixed && parsed_ok = false /\ exists fn line isf ps sc, c = CSig fn line isf ps sc /\ line <= l).
 Proof. exact text_ctx_kinds. Qed.
 
+(** While `def test_x(a, b` is being typed on the last line of a document that does not parse —
+    any whitespace indentation, any identifier starting with test_, any parameter text
+    without parentheses, anything above that does not mention usefixtures( — the fallback
+    answers with EXACTLY the signature context of that function: name, line, whether a
+    fixture decorator stands above, the parameters typed so far, the decorator's scope. *)
+Theorem C18_typed_signature_context :
+  forall (content : text) (above : list text) (indent name ptext line : text),
+    line = indent ++ s_def ++ name ++ 40 :: ptext ->
+    text_lines content = above ++ [line] ->
+    (forall ln, In ln (above ++ [line]) -> Text.find s_usefixtures ln = None) ->
+    forallb is_ws indent = true ->
+    name <> [] -> forallb ident_char name = true -> tprefix s_test name = true ->
+    no_parens indent = true -> no_parens ptext = true ->
+    text_ctx_with true false content (len above + 1)
+    = Some (CSig (utf8_encode name) (len above + 1)
+                 (has_fixture_decorator_above (rev above))
+                 (declared_from_text [line])
+                 (if has_fixture_decorator_above (rev above)
+                  then Some (match scope_from_text (rev above) with Some s => s | None => 0 end) else None)).
+Proof. exact typed_signature_context. Qed.
+Print Assumptions C18_typed_signature_context.
+(** the parameters typed so far, on an instance *)
+Example C18_declared_from_text_example :
+  declared_from_text [utf8_decode "    def test_x(db, client: int = 3, *, cfg"] = ["db"; "client"; "cfg"].
+Proof. vm_compute. reflexivity. Qed.
+
 (** ** witnesses *)
 Definition txt (s : string) : text := utf8_decode s.
 Definition nl : string := String (Ascii.ascii_of_nat 10) EmptyString.
